@@ -450,10 +450,16 @@ where
     for_types!(d2!(rtag, cmpall, L, (a)))
 }
 
+#[path = "../ops_exec.rs"]
+mod ops_exec;
+#[path = "../gen_ops.rs"]
+mod gen_ops;
+
 fn exec(t: &[&str]) -> String {
     let op = t[0];
     let a = &t[2..];
     match op {
+        "add" | "sub" | "mul" | "div" | "rem" | "and" | "or" | "xor" | "shl" | "shr" | "not" => ops_exec::exec(t),
         "zeros" | "ones" | "repeat" | "with_capacity" | "from_binary" | "from_hex" | "from_bytes" | "read" | "collect" => {
             for_types!(d1!(a[0], ctor, (op, &a[1..])))
         }
@@ -481,7 +487,7 @@ fn exec(t: &[&str]) -> String {
 }
 
 #[path = "../gen_core.rs"]
-mod gen;
+pub mod gen;
 
 fn main() {
     harness_main(gen::generate, exec);
